@@ -190,6 +190,11 @@ pub fn c04(args: &Args) -> Report {
     if rep.counter("file_growth_events") == 0 && only_index(args).is_none() {
         rep.inconclusive.push("no file growth was observed in this leg".into());
     }
+    if only_index(args).is_none() {
+        rep.require("file_growth_events", "no file growth observed");
+        rep.require("reopens", "no reopen");
+        rep.require("offset_rereads", "no offset re-read");
+    }
     rep
 }
 
@@ -231,10 +236,13 @@ pub fn c05(args: &Args) -> Report {
             }
             one_step(&mut eng, &mut rng, &p, &mix);
             if checkpoints.contains(&s) && !eng.aborted {
-                for q in 0..per_state / 3 {
-                    // alternate between free-form filters and filters derived from what is stored
-                    // (several values / authors / kinds with matches each, limit cutting in the middle)
-                    let f = if q % 2 == 0 { gen_filter(&mut rng, &p, &eng, q / 2) } else { gen_filter_from_state(&mut rng, &eng, q / 2) };
+                let _ = per_state;
+                for q in 0..(if args.thorough() { 28 } else { 14 }) {
+                    // every index plan (q / 2 mod 7), alternately with free-form filters and with filters
+                    // derived from what is stored (several values / authors / kinds with matches each,
+                    // limit cutting in the middle)
+                    let plan = (q / 2) % 7;
+                    let f = if q % 2 == 0 { gen_filter(&mut rng, &p, &eng, plan) } else { gen_filter_from_state(&mut rng, &eng, plan) };
                     let screen_mode = *rng.pick(&[0u8, 0, 0, 1, 1, 4, 2, 3]);
                     // scraping allowances in all combinations
                     let allow = match rng.below(5) {
@@ -272,6 +280,24 @@ pub fn c05(args: &Args) -> Report {
         }
         let nt = eng.model.r.len() >= 3;
         finish_history(&mut eng, nt);
+    }
+    // every index plan must have been exercised, otherwise this run says nothing about it
+    if only_index(args).is_none() {
+        let mut gaps = vec![];
+        for plan in ["ids", "author+kind", "author+tag", "kind+tag", "tag", "author", "scrape"] {
+            if rep.counter(&format!("query_plan:{plan}")) == 0 {
+                gaps.push(format!("index plan '{plan}' was never exercised"));
+            }
+        }
+        if rep.counter("queries_refused_as_scraping") == 0 {
+            gaps.push("no query was refused as scraping".to_string());
+        }
+        if rep.counter("queries_cut_by_limit") == 0 {
+            gaps.push("no query was cut by its limit".to_string());
+        }
+        if !gaps.is_empty() {
+            let _ = rep.extra.insert("coverage_gaps".into(), json!(gaps));
+        }
     }
     rep
 }
@@ -353,6 +379,11 @@ pub fn c09(args: &Args) -> Report {
         }
         finish_history(&mut eng, nt);
     }
+    if only_index(args).is_none() {
+        rep.require("store_outcome:OLD", "no older-than-holder submission");
+        rep.require("store_outcome:EQ", "no equal-timestamp submission");
+        rep.require("address_invariant_checks", "address invariant never checked");
+    }
     rep
 }
 
@@ -400,6 +431,10 @@ pub fn c10(args: &Args) -> Report {
             eng.rep.sample(s);
         }
         finish_history(&mut eng, nt);
+    }
+    if only_index(args).is_none() {
+        rep.require("foreign_guard_checks", "no kind-5 request was guarded");
+        rep.require("store_outcome:FOREIGN", "no request with a foreign target");
     }
     rep
 }
@@ -450,6 +485,12 @@ pub fn c11(args: &Args) -> Report {
             eng.rep.sample(s);
         }
         finish_history(&mut eng, nt);
+    }
+    if only_index(args).is_none() {
+        rep.require("marker_monotonicity_checks", "marker monotonicity never checked");
+        rep.require("store_outcome:DEL", "no store of a covered event");
+        rep.require("reopens", "no reopen");
+        rep.require("rebuilds", "no rebuild");
     }
     rep
 }
@@ -570,6 +611,16 @@ pub fn c12(args: &Args) -> Report {
         finish_history(&mut eng, nt);
     }
     pocket_db::verif::set_fail_handler(None);
+    if only_index(args).is_none() {
+        rep.require("failed_stores_snapshotted", "no failing store snapshotted");
+        rep.require("injected_failure_fired:store.after_preremove", "injection stage store.after_preremove never fired");
+        rep.require("injected_failure_fired:store.after_append", "injection stage store.after_append never fired");
+        rep.require("injected_failure_fired:store.after_index", "injection stage store.after_index never fired");
+        rep.require("injected_failure_fired:delete.after_tag", "injection stage delete.after_tag never fired");
+        rep.require("injected_failure_fired:remove.between_deindex", "injection stage remove.between_deindex never fired");
+        rep.require("injected_failure_fired:store.before_commit", "injection stage store.before_commit never fired");
+        rep.require("store_outcome:FOREIGN", "no request with a foreign target");
+    }
     rep
 }
 
@@ -643,6 +694,12 @@ pub fn c16(args: &Args) -> Report {
             eng.rep.sample(s);
         }
         finish_history(&mut eng, nt);
+    }
+    if only_index(args).is_none() {
+        rep.require("lifecycle_snapshots_compared", "no lifecycle snapshot compared");
+        rep.require("rebuilds", "no rebuild");
+        rep.require("reopens", "no reopen");
+        rep.require("table_puts", "no extra-table row");
     }
     rep
 }
@@ -725,6 +782,10 @@ pub fn c17(args: &Args) -> Report {
         }
         finish_history(&mut eng, nt);
     }
+    if only_index(args).is_none() {
+        rep.require("derived_filters_run", "no derived filter run");
+        rep.require("histories_drained_to_empty", "no history drained to empty");
+    }
     rep
 }
 
@@ -779,6 +840,11 @@ pub fn c18(args: &Args) -> Report {
             eng.rep.sample(s);
         }
         finish_history(&mut eng, nt);
+    }
+    if only_index(args).is_none() {
+        rep.require("removed_present", "no present event removed");
+        rep.require("removed_absent", "no absent id removed");
+        rep.require("vanish_targets", "vanish had no target");
     }
     rep
 }
